@@ -13,7 +13,10 @@ RULE = ("enumerated part: count in {1..4} x base in {0,1,7} (rotating) x {SizeTr
         "(thorough: all three at every point; quick: the Err at every point, the crash continuation at every point "
         "of the limit-0 history with alternating restart mode and at the last rotation of the limit-9 history), "
         "each followed by >= 3 further appends (which rotate again); the hook also snapshots the directory at every "
-        "call of every rotation. Patterns with the index in the file name and in a DIRECTORY component "
+        "call of every rotation; for steps k >= 1 (vacant destination) the same fault is also produced by the REAL file "
+        "system - at hook call k the step's destination becomes a non-empty directory, removed when the call has "
+        "returned - so that the crate's own error path runs (quick: every such point for count 4, half of the others). "
+        "Patterns with the index in the file name and in a DIRECTORY component "
         "(arch/{}/a.log, {}/a.log, z/{}/a.gz). Then real file-system failures without injected errors: (a) a "
         "non-empty directory at the top archive name (EISDIR) placed after 0..count-1 completed rotations, 1-3 "
         "failing appends, removal, >= 3 appends, with and without the hook installed; (b) the directory of archive "
@@ -164,6 +167,13 @@ def enumerated(tier):
                                         kinds = [[1, k], alt]
                                     else:
                                         kinds = [[1, k]] + ([alt] if j == len(rots) - 1 else [])
+                                # (only where the step has something to move: a missing source is tolerated
+                                # before the destination is even looked at)
+                                src_exists = (k == c - 1) or (c - 2 - k < j)
+                                if k >= 1 and src_exists and (not quick or (j + k + combo) % 2 == 0 or c == 4):
+                                    # the same fault produced by the REAL file system (obstacle at the step's
+                                    # vacant destination): the crate's own error path runs
+                                    kinds = kinds + [[4, k]]
                                 for kind in kinds:
                                     ops = [[0, r, [0]] for r in recs]
                                     ops[opi] = [0, recs[opi], list(kind)]
@@ -440,6 +450,18 @@ def _diff_dirs(a, m):
     return ", ".join("%s: impl %r model %r" % (p.decode("utf-8", "replace"), da.get(p), dm.get(p)) for p in diff[:3])
 
 
+def model_lines(ctx, cases, lines, impl_lines):
+    """a real obstacle at step k (fault kind 4) is, for the model, a step that fails before any effect (kind 1)"""
+    vc = ctx["vc"]
+    out = []
+    for c, ln in zip(cases, lines):
+        if any(o[0] == 0 and o[2][0] == 4 for o in c[10]):
+            c = c[:10] + [[[0, o[1], [1, o[2][1]]] if (o[0] == 0 and o[2][0] == 4) else o for o in c[10]]]
+            ln = vc.show(c)
+        out.append(ln)
+    return out
+
+
 def compare(case, impl, model):
     b, c, limit, pre, gz, pattern, file, mode0, nohook, init, ops = case
     if isinstance(impl, (bytes, bytearray)):
@@ -618,6 +640,8 @@ def _opd(o):
             return "append %r with Err at hook call %d" % (bytes(o[1]), k[1])
         if k[0] == 3:
             return "append of %d bytes under RLIMIT_FSIZE=%d" % (len(o[1]), k[1])
+        if k[0] == 4:
+            return "append %r with a real obstacle (non-empty directory) at the destination of step %d" % (bytes(o[1]), k[1])
         return "append %r dying at hook call %d, fresh appender(append=%s)" % (bytes(o[1]), k[1], bool(k[2]))
     if o[0] == 1:
         return "restart(append=%s)" % bool(o[1])
@@ -641,6 +665,8 @@ def classify(c):
             kinds.add("fault")
         if o[0] == 0 and o[2][0] == 2:
             kinds.add("crash")
+        if o[0] == 0 and o[2][0] == 4:
+            kinds.add("real-fault")
         if o[0] == 0 and o[2][0] == 3:
             kinds.add("efbig(exploration)")
         if o[0] == 2:
